@@ -140,11 +140,13 @@ func (f *freshnessCalculator) CalculateFreshness(
 
 	// Freshness lifetime (private cache: ignore s-maxage)
 	usefulLife := time.Duration(0)
-	if maxAge, ok := resCC.MaxAge(); ok && maxAge >= 0 {
+	maxAge, hasMaxAge := resCC.MaxAge()
+	if hasMaxAge && maxAge >= 0 {
 		usefulLife = maxAge // Response is fresh for max-age seconds
 	}
 
-	if usefulLife == 0 {
+	// Expires and heuristics apply only when there is no (valid) max-age; max-age=0 is explicit.
+	if !hasMaxAge {
 		expires, found, valid := entry.ExpiresHeader()
 		switch {
 		case valid && expires.After(date):
